@@ -19,6 +19,13 @@ NA = {
 }
 
 CHECKS = {
+    "C03": dict(
+        category="exploration",
+        text="Seeded search over call histories fit(A);[predict];fit(B) on one instance against fresh estimators, with the three entropy sources the property quantifies over owned by the simulator: numpy's global seed, the unseeded RandomState() constructor (OS entropy, answered from stream r: taped to be identical for refit-vs-fresh, redrawn for same-seed-same-model) and PYTHONHASHSEED (runs with string labels re-executed in a second interpreter). Bit equality of outputs and fitted attributes.",
+        design_ref="DESIGN.md §4 C03, §3.4, §3.5",
+        note="Trusted: OS entropy enters mlinsights only through numpy.random.RandomState() without seed (grep-verified for the anchored files); thread schedules excluded here (C08); estimator slots filled with peers.",
+        technique="deterministic simulation: owned entropy seam with taped answers, cross-PYTHONHASHSEED re-execution, reference = fresh estimator",
+    ),
     "C17": dict(
         category="exploration",
         text="Seeded search over IntervalRegressor scenarios with the numpy.random seam owned by the simulator: every resampling request made from inside the (possibly threaded) fit tasks is logged and answered adversarially (both ends of the requested range forced into every resample) or from the pinned global RNG; oracles on what was requested (support = all n rows, size = round(alpha*n)), on what each recording base regressor received (rows with their own target and weight) and on the aggregation (mean, sorted, min<=mean<=max). Eligibility of every row is decided without statistics.",
